@@ -105,6 +105,11 @@ def parseShortflags (c : ECmd) : Nat → ShortFlags → Bytes → Bytes × Optio
       | none => parseShortflags c fuel s' lead'
     | (s', _) => (lead, none, s')
 
+/-- `known_flags` in the short branch of the word loop: every character of the group is a short the
+command knows (as the parser, a group of known flags is never a hyphen value of the positional) -/
+def knownFlags (c : ECmd) (sf : ShortFlags) : Bool :=
+  sf.invalid.isNone && sf.chars.all fun ch => (findShort c ch).isSome
+
 /-- one step of the `while let Some(arg)` loop on a token that is not under the cursor:
 new `(cmd, pos_index, is_escaped, state)`; `none` = panic -/
 def stepTok (cur : ECmd) (posIndex : Nat) (isEscaped : Bool) (st : PS) (tok : Bytes) : Option (ECmd × Nat × Bool × PS) :=
@@ -131,7 +136,7 @@ def stepTok (cur : ECmd) (posIndex : Nat) (isEscaped : Bool) (st : PS) (tok : By
           match parseShortflags cur (sf.chars.length + 1) sf [] with
           | (_, some a, rest) => some (cur, posIndex, isEscaped, if (rest.nextValueOs).2.isNone then .opt a 1 else .valueDone)
           | (_, none, _) =>
-            if posAllowsHyphen cur posIndex then (parsePositional cur posIndex isEscaped st).map fun r => (cur, r.2, isEscaped, r.1)
+            if !(knownFlags cur sf) && posAllowsHyphen cur posIndex then (parsePositional cur posIndex isEscaped st).map fun r => (cur, r.2, isEscaped, r.1)
             else some (cur, posIndex, isEscaped, .valueDone)
         | none =>
           match st with
